@@ -156,6 +156,27 @@ def jacobian_agreement(chk):
            "hedge with a x10 instrument leaves 90% of the risk", where=H.fn.where, expected="unit_risk(s, m) * multiplier(s)", found=short(entry, 160), sample={"entry": short(entry, 140)})
 
 
+ALT_REFS = {
+    # closing a flat security trades nothing (StrategyBase.close sizes the trade from the position / value and skips zero): the call may be skipped for it
+    ("ClosePositionsAfterDates", "__call__"): ('''
+def ref(self, target):
+    if "closed" not in target.perm:
+        target.perm["closed"] = set()
+    close_dates = target.get_data(self.close_dates)["date"]
+    sec_names = [
+        sec_name for sec_name, sec in target.children.items() if isinstance(sec, SecurityBase) and sec_name in close_dates.index and sec_name not in target.perm["closed"]
+    ]
+    is_closed = close_dates.loc[sec_names] <= target.now
+    for sec_name in is_closed[is_closed].index:
+        if target[sec_name].position != 0:
+            target.close(sec_name, update=False)
+        target.perm["closed"].add(sec_name)
+    target.root.update(target.now)
+    return True
+''',),
+}
+
+
 def run(chk):
     chk.explain("C20: UpdateRisk (recursion and entry point), the unit-risk reader, HedgeRisks, ClosePositionsAfterDates, RollPositionsAfterDates and SelectActive are equivalent to "
                 "reference models (truth table over branch atoms; per-iteration effects; pandas / numpy expressions in canonical form); the Jacobian entry agrees with the risk formula "
@@ -163,7 +184,7 @@ def run(chk):
     chk.assume("zero risk after hedging as a numeric fact and singular Jacobians are not decided")
     for cls, name, src, what in REFS:
         check_equiv(chk, {"UpdateRisk": "C20.R1", "HedgeRisks": "C20.R2"}.get(cls, "C20.R3"), ALGOS, cls, name, src, "documented-behaviour", "%s.%s: %s" % (cls, name, what),
-                    no_inline=("_set_risk_recursive", "_get_target_risk") if name != "_set_risk_recursive" else ("_set_risk_recursive",), limit=14)
+                    no_inline=("_set_risk_recursive", "_get_target_risk") if name != "_set_risk_recursive" else ("_set_risk_recursive",), limit=14, alt_refs=ALT_REFS.get((cls, name), ()))
     check_equiv(chk, "C20.R1", ALGOS, None, "_get_unit_risk", GET_UNIT_RISK_REF, "unit-risk-reader", "_get_unit_risk: the security's unit risk at the given row, 0 when there is no data for it")
     jacobian_agreement(chk)
     n = core_rules.defer_rules(chk, "C20", modules=(ALGOS,), only_hosts=("ClosePositionsAfterDates.__call__", "RollPositionsAfterDates.__call__"))
